@@ -156,13 +156,15 @@ func (s *SwitchPool) GetByID(ctx context.Context, client client.VPC, id string) 
 				IPv4CIDR:         resp.CidrBlock,
 				IPv6CIDR:         resp.Ipv6CidrBlock,
 			}
+			// store once, inside the flight: callers sharing this result must not re-add it later
+			// and overwrite a Block() issued in between
+			s.cache.Add(sw.ID, sw, s.ttl)
 			return sw, nil
 		})
 		if err != nil {
 			return nil, err
 		}
 		vsw := v.(*Switch)
-		s.cache.Add(vsw.ID, vsw, s.ttl)
 
 		return vsw, nil
 	}
